@@ -1,6 +1,7 @@
 """C17 - CMAP reading returns every labelled molecule exactly; trimming keeps geometry."""
 import io
 
+from vf import core
 from vf import e2e, gen, hooks, pipeline, text
 from vf.core import Shard, rng_for
 
@@ -149,7 +150,7 @@ def run_shard(spec):
             if rng.random() < 0.7:      # shuffled rows / extra columns in the files the program reads
                 case['ref_text'] = text.cmap_text([tuple(m) for m in case['refs']], rng=rng, shuffle_rows=True, extra_cols=rng.random() < 0.5)
                 case['query_text'] = text.cmap_text([tuple(m) for m in case['queries']], rng=rng, shuffle_rows=True, permute_cols=rng.random() < 0.3)
-            judge_e2e(case, spec['workdir'], sh)
+            core.isolated(judge_e2e, sh, case, spec['workdir'])
     if hooks.MONITOR_ERRORS:
         sh.inconclusive.append('monitor errors: %s' % hooks.MONITOR_ERRORS[:3])
     return sh
